@@ -203,6 +203,56 @@ def mfr_expected(case):
     return out
 
 
+# the functions of CPython's Lib/codecs.py that SpooledStringIO runs on (through codecs.EncodedFile) and that
+# C18.Model transliterates by hand; `codecs_facts` re-reads them from the running interpreter's source on every run
+CODECS_TRANSLITERATED = ['StreamReader.__init__', 'StreamReader.read', 'StreamReader.readline', 'StreamReader.reset',
+                         'StreamReader.seek', 'StreamWriter.write', 'StreamWriter.reset', 'StreamWriter.seek',
+                         'StreamRecoder.__init__', 'StreamRecoder.read', 'StreamRecoder.readline',
+                         'StreamRecoder.readlines', 'StreamRecoder.write', 'StreamRecoder.writelines',
+                         'StreamRecoder.seek', 'StreamRecoder.reset', 'StreamRecoder.__getattr__', 'EncodedFile']
+
+
+def _strip_doc(fn):
+    if fn.body and isinstance(fn.body[0], ast.Expr) and isinstance(getattr(fn.body[0], 'value', None), ast.Constant) \
+            and isinstance(fn.body[0].value.value, str):
+        fn.body = fn.body[1:] or [ast.Pass()]
+    return fn
+
+
+def codecs_facts():
+    """(readline's first read size, the cap of its doubling, the factor, digest of the transliterated functions) read
+    from the source of the `codecs` module of the interpreter that runs the implementation"""
+    import codecs
+    import hashlib
+    tree = ast.parse(open(codecs.__file__).read())
+    top = {n.name: n for n in tree.body if isinstance(n, (ast.ClassDef, ast.FunctionDef))}
+    h = hashlib.sha256()
+    nodes = {}
+    for q in CODECS_TRANSLITERATED:
+        node = top[q.split('.')[0]]
+        if '.' in q:
+            node = {m.name: m for m in node.body if isinstance(m, ast.FunctionDef)}[q.split('.')[1]]
+        nodes[q] = _strip_doc(node)
+        h.update((q + ':' + ast.dump(node) + '\n').encode())
+    rs = cap = factor = None
+    for n in ast.walk(nodes['StreamReader.readline']):
+        if isinstance(n, ast.Assign) and getattr(n.targets[0], 'id', None) == 'readsize' and \
+                isinstance(n.value, ast.BoolOp) and isinstance(n.value.op, ast.Or) and \
+                isinstance(n.value.values[-1], ast.Constant):
+            rs = n.value.values[-1].value
+        if isinstance(n, ast.If) and isinstance(n.test, ast.Compare) and getattr(n.test.left, 'id', None) == 'readsize' \
+                and len(n.test.ops) == 1 and isinstance(n.test.ops[0], ast.Lt) and \
+                isinstance(n.test.comparators[0], ast.Constant) and len(n.body) == 1 and \
+                isinstance(n.body[0], ast.AugAssign) and isinstance(n.body[0].op, ast.Mult) and \
+                getattr(n.body[0].target, 'id', None) == 'readsize' and isinstance(n.body[0].value, ast.Constant):
+            cap, factor = n.test.comparators[0].value, n.body[0].value.value
+    for v in (rs, cap, factor):
+        if not isinstance(v, int) or isinstance(v, bool) or v < 0:
+            raise ValueError('codecs.StreamReader.readline no longer has the shape `readsize = size or N` / '
+                             '`if readsize < CAP: readsize *= K`: %r' % ((rs, cap, factor),))
+    return rs, cap, factor, h.hexdigest()[:32]
+
+
 class C18(Property):
     PID = 'C18'
     QUICK_BUDGET_S = 38
@@ -257,12 +307,22 @@ class C18(Property):
         if not isinstance(val, int) or isinstance(val, bool) or val < 0:
             raise ValueError('READ_CHUNK_SIZE is not a non-negative int literal: %r' % (val,))
         self._chunk_const = val
+        rs, cap, factor, digest = codecs_facts()
         return {'C18_Consts.lean':
-                '/- GENERATED by harness/bv/props/c18.py (regen) from boltons/ioutils.py — do not edit. -/\n'
+                '/- GENERATED by harness/bv/props/c18.py (regen) from boltons/ioutils.py and the running interpreter\'s\n'
+                '   Lib/codecs.py — do not edit. -/\n'
                 'namespace C18.Generated\n\n'
                 '/-- `boltons.ioutils.READ_CHUNK_SIZE` -/\n'
                 'def READ_CHUNK_SIZE : Nat := %d\n\n'
-                'end C18.Generated\n' % val}
+                '/-- `codecs.StreamReader.readline`: `readsize = size or <this>` -/\n'
+                'def CODECS_READLINE_SIZE : Nat := %d\n\n'
+                '/-- `codecs.StreamReader.readline`: `if readsize < <this>: readsize *= <factor>` -/\n'
+                'def CODECS_READSIZE_CAP : Nat := %d\n'
+                'def CODECS_READSIZE_FACTOR : Nat := %d\n\n'
+                '/-- sha256 (first 32 hex digits) of the docstring-free AST of the codecs functions that C18.Model\n'
+                '    transliterates: %s -/\n'
+                'def CODECS_SOURCE_DIGEST : String := "%s"\n\n'
+                'end C18.Generated\n' % (val, rs, cap, factor, ', '.join(CODECS_TRANSLITERATED), digest)}
 
     # ------------------------------------------------------------------ generation
     def cases(self, budget_s):
